@@ -122,6 +122,40 @@ def main(tier):
     for g in range(0, len(cases), step):
         groups.append({"id": "g%d" % g, "cases": [dict(c, reps=1) for c in cases[g:g + step]], "reps": 6 if thorough else 3})
     obs4 = harness("conc", groups)
+    # the result of a project does not depend on which OTHER project of the same directory was processed before it in
+    # this process (shared include chains of depth 2, fault in the deepest file; both kinds of diagnostics)
+    shared = []
+    for k, (fault, stagekind) in enumerate([('TYPE @zf\n{\n  "a": @zundefined\n}\n', "compile"), ("Bogus directive\n", "scan"),
+                                            ('GET /zf\n  Request\n    Headers\n    {\n      "h": "v"\n    }\n  200 any\n', "validate")]):
+        files = {
+            "main_a.jst": "JSIGHT 0.3\nTYPE @pa any\nINCLUDE shared/types.jst\n",
+            "main_b.jst": "JSIGHT 0.3\nTYPE @pb any\nTYPE @pb2 any\n\n\nGET /b\n  200 any\nINCLUDE shared/types.jst\n",
+            "main_c.jst": "JSIGHT 0.3\nINCLUDE other/mid.jst\n",
+            "shared/types.jst": "TYPE @st any\n\nINCLUDE base.jst\n",
+            "other/mid.jst": "\n\n\nINCLUDE ../shared/base.jst\n" if False else "TYPE @om any\nINCLUDE deep/base2.jst\n",
+            "other/deep/base2.jst": "TYPE @ob any\n",
+            "shared/base.jst": "TYPE @sb any\n" + fault,
+        }
+        ff = {kk: b64(v) for kk, v in files.items()}
+        for root, warm in (("main_b.jst", ["main_a.jst"]), ("main_a.jst", ["main_b.jst"]), ("main_b.jst", ["main_c.jst", "main_a.jst"])):
+            shared.append(({"id": "sh%d_%s_solo" % (k, root[:6] + str(len(warm))), "files": ff, "root": root},
+                           {"id": "sh%d_%s_warm" % (k, root[:6] + str(len(warm))), "files": ff, "root": root, "warm": warm}, stagekind, root, warm))
+    sobs = harness("run", [x[0] for x in shared] + [x[1] for x in shared], nproc=3)
+    for solo_c, warm_c, stagekind, root, warm in shared:
+        a, b = sobs[solo_c["id"]], sobs[warm_c["id"]]
+        chk.evaluations += 1
+        chk.traces += 1
+        chk.nontrivial.add(warm_c["id"])
+        def key(o):      # "full" spells the include chain with the absolute paths of the scratch directory
+            e = dict(o.get("err") or {})
+            e.pop("full", None)
+            return (o["outcome"], json.dumps(e, sort_keys=True), o.get("json"))
+        ka, kb = key(a), key(b)
+        if ka != kb:
+            sig = {"kind": "after_other_project", "msg": ((a.get("err") or {}).get("msg") or "")[:60], "what": "differs after another project", "detail": ""}
+            chk.violation("result of %s differs when %s were processed before it in the same process (fault found at %s): alone %s trace %s, after them %s trace %s" % (
+                root, warm, stagekind, rel.describe(a), (a.get("err") or {}).get("trace"), rel.describe(b), (b.get("err") or {}).get("trace")),
+                {"kind": "determinism_warm", "case": warm_c, "observed_alone": a, "observed_after": b, "signature": sig}, sig)
     import base64
     for n, (kind, t) in enumerate(texts):
         cid = "d%d" % n
